@@ -169,3 +169,58 @@ def tables_on(rng):
 def samples4(rng):
     for a in _samples(rng, 4):
         yield {"array": a}
+
+
+@scope("any_objects")
+def any_objects(rng):
+    exprs = ["''", "'C'", "'CAF'", "'CAW'", "'CASSF'", "'CAX'", "'AAF'", "'CA'", "'caf'", "None", "float('nan')", "1", "1.5", "True",
+             "b''", "b'CAF'", "[]", "()", "set()", "{}", "['C','A','F']", "('C','F')", "{'C'}", "{'C': 1}", "{0: 'C', -1: 'F'}",
+             "[['C']]", "[1, 2]", "['C', ['A']]", "np.nan", "np.str_('CAF')", "pd.NA", "object()", "iter('CAF')", "range(3)",
+             "{'C': 1, 'F': 2}", "['CA', 'F']", "'C F'", "'CÄF'"]
+    for e in exprs:
+        yield {"string": py(e)}
+
+
+def R(v):
+    return {"t": "float", "v": float(v)}
+
+
+def tup(*items):
+    return {"t": "tuple", "items": list(items)}
+
+
+@scope("triplet_lists")
+def triplet_lists(rng):
+    for _ in range(2000):
+        n1 = rng.randint(1, 4)
+        two = rng.random() < 0.6
+        n2 = rng.randint(1, 4) if two else n1
+        pairs = [(q, r) for q in range(n2) for r in range(n1)]
+        rng.shuffle(pairs)
+        pairs = pairs[:rng.randint(0, len(pairs))]
+        trip = [tup(I(q), I(r), R(rng.choice([0, 1, 2, 0.5]))) for q, r in pairs]
+        yield {"triplets": seq(trip, rng.choice(["list", "set"])),
+               "output_type": {"t": "const", "v": rng.choice(["triplets", "coo_matrix", "ndarray"])},
+               "seqs": seq([S("A")] * n1, "list"), "seqs2": seq([S("B")] * n2, "list") if two else NONE}
+
+
+def _strings(alpha, maxlen):
+    for n in range(0, maxlen + 1):
+        for t in itertools.product(alpha, repeat=n):
+            yield "".join(t)
+
+
+@scope("strings_alphabets")
+def strings_alphabets(rng):
+    for alpha in ("A", "AB", "ABC"):
+        for x in _strings(alpha, 4):
+            yield {"x": S(x), "alphabet": S(alpha)}
+    for x in _strings("AB", 3):
+        yield {"x": S(x), "alphabet": S("ABCD")}
+
+
+@scope("comb_gen")
+def comb_gen(rng):
+    for k in range(0, 4):
+        for x in _strings("ABC", 4):
+            yield {"seq": S(x), "max_edits": I(k)}
